@@ -7,7 +7,9 @@
 2. Thorough tier: a deliberately broken variant of the model (host-host served to any named host) must
    violate the invariant (non-vacuity of the model check; never a verdict).
 3. The Go driver executes every lattice point against the real control/drkey/grpc.Server handlers
-   (peer in the context, recording engine, fake certificate verifier), k concretisations each.
+   (recording engine, fake certificate verifier): directly with a peer.Peer in the context, or through
+   the in-process connect-RPC chain (generated client -> pkg/connect.AttachPeer -> connect mux ->
+   control/drkey/connect.Server), where peer address and TLS state are extracted by the real code.
 4. TLC validates the recorded outcomes against DRKeyAdmitTrace.tla (served => Admit /\ key term).
 """
 import json
@@ -36,11 +38,14 @@ def run(c):
         with open(scn, "w") as f:
             f.write("\n".join(scns) + "\n")
         trace = c.scratch + "/admit.ndjson"
-        args = ["-scn", scn, "-out", trace, "-k", 2 if c.thorough else 1]
+        # quick: every lattice point once, through the direct handler call or through the in-process
+        # connect-RPC chain (alternating by point and seed); thorough: both ways, canonical + 1 seeded
+        args = ["-scn", scn, "-out", trace, "-k", 1, "-via", "both" if c.thorough else "split"]
         c.run_driver(drv, args + (["-canon"] if c.thorough else []))
     r = c.validate("DRKeyAdmitTrace", "DRKeyAdmitTrace.cfg", trace, timeout=1500)
     lines = _crypto.judge_cases(c, r, trace, vlib, sidecar=trace + ".conc")
     served = {}
+    vias = {}
     total = {}
     points = set()
     nontrivial = set()
@@ -52,6 +57,7 @@ def run(c):
         pt = "|".join(e[k] for k in ("rpc", "proto", "src", "dst", "srcHost", "dstHost", "peer", "allow", "cert"))
         points.add(pt)
         if e["served"]:
+            vias[e["via"]] = vias.get(e["via"], 0) + 1
             served[e["rpc"]] = served.get(e["rpc"], 0) + 1
             nontrivial.add(pt)
     if not c.replay:
@@ -61,13 +67,15 @@ def run(c):
             if not served.get(rpc):
                 # an only-if property is vacuous on an implementation that serves nobody
                 raise vlib.Infra("vacuity guard: RPC %s never served a request (harness problem?)" % rpc)
+        if not vias.get("direct") or not vias.get("connect"):
+            raise vlib.Infra("vacuity guard: served per path: %s" % vias)
         c.cov["exhaustive"] = True
     c.cov["traces_validated_against_impl"] += 1
     c.cov["evaluations"] += len(lines)
     c.cov["distinct_nontrivial"] += len(nontrivial)
     c.cov["rule"] = ("one evaluation = one real handler call judged by TLC; non-trivial = lattice points "
                      "(abstract requests) that the real service answered with a key (the antecedent of "
-                     "the only-if property); served per rpc: %s of %s" % (served, total))
+                     "the only-if property); served per rpc: %s of %s; served per path: %s" % (served, total, vias))
     c.sample_trace(trace, nevents=3)
     c.assumptions += ["the abstract lattice (DRKeyOps!Requests) is enumerated completely; each point is "
                       "executed with a canonical and seeded concretisations (addresses, ISD-ASes, "
